@@ -70,6 +70,23 @@ class P(Prop):
                     d = cdiff(canon_c(r), canon(m["c"]))
                 if d:
                     self.fail("corr", op, f"{op}(k={k}): {d}", {"c": cj, "k": k, "seed": seed, "op": op})
+            # insert_registers and acyclic_unroll (acyclic input) against their models
+            st = self.rng.randint(1, 4)
+            with ordered(seed):
+                o, r = call(cg.tx.insert_registers, c, st)
+            m = drv.ask({"op": "insert_registers", "c": cj, "num_stages": st, "seed": seed})
+            self.corr_cases += 1
+            self.stats.bump(f"insert_registers:{o}")
+            d = f"outcome impl={o} model={m['outcome']}" if m["outcome"] != o else (cdiff(canon_c(r), canon(m["c"])) if o == "ok" else "")
+            if d:
+                self.fail("corr", "insert_registers", f"insert_registers({st}): {d}", {"c": cj, "num_stages": st, "seed": seed, "op": "insert_registers"})
+            with ordered(seed):
+                o, r = call(cg.tx.acyclic_unroll, c)
+            m = drv.ask({"op": "acyclic_unroll", "c": cj, "seed": seed})
+            self.corr_cases += 1
+            d = f"outcome impl={o} model={m['outcome']}" if m["outcome"] != o else (cdiff(canon_c(r), canon(m["c"])) if o == "ok" else "")
+            if d:
+                self.fail("corr", "acyclic_unroll", f"acyclic_unroll: {d}", {"c": cj, "seed": seed, "op": "acyclic_unroll"})
             if self.too_many():
                 break
 
